@@ -192,6 +192,23 @@ class ProcessingItemBase:
                 ]
             else:
                 transformation_items = list(getattr(self.transformation, "__dict__", {}).items())
+            # A function is identified by where it is defined, not by its representation, which
+            # contains its memory address and differs from process to process.
+            transformation_items = [
+                (
+                    name,
+                    (
+                        (
+                            getattr(value, "__module__", None),
+                            getattr(value, "__qualname__", type(value).__name__),
+                            getattr(getattr(value, "__code__", None), "co_firstlineno", None),
+                        )
+                        if callable(value) and not isinstance(value, type)
+                        else value
+                    ),
+                )
+                for name, value in transformation_items
+            ]
             content.append(str(sorted(transformation_items, key=lambda item: item[0])))
 
         if hasattr(self, "rule_conditions") and self.rule_conditions:
